@@ -520,7 +520,7 @@ func (s *MemState) OwnerKey(ctx context.Context, keyType protocol.KeyType, rsaBi
 	if s.NoChains {
 		return Key(name), nil, nil
 	}
-	return Key(name), Chain(name), nil
+	return Key(name), OwnerChain(name), nil
 }
 
 // ManufacturerKey returns the manufacturer key of a family.
